@@ -36,7 +36,7 @@ import (
 )
 
 var funcs = []string{"ApplyCommands", "cmd", "cmd.check", "scheduleReload", "extendReload", "sendReloadCmd",
-	"cancelReload", "writeMem", "stripReloadBanner", "prepareDevice"}
+	"cancelReload", "writeMem", "stripReloadBanner", "prepareDevice", "LoginEnable", "LoginEnable.waitPrompt"}
 
 var watched = map[string]string{"needReload": "needReload", "s.reloadActive": "reloadActive"}
 
@@ -56,9 +56,53 @@ func exprText(e ast.Expr) string {
 	return "?"
 }
 
+// local string constants of the function being walked: `name := <constant>` with no other
+// assignment to `name` anywhere in the function
+var localConst = map[string]string{}
+
+// aliases of the connection (`conn := s.Conn`)
+var connAlias = map[string]bool{}
+
+func collectLocals(body *ast.BlockStmt) {
+	localConst = map[string]string{}
+	connAlias = map[string]bool{}
+	defs := map[string]int{}
+	ast.Inspect(body, func(n ast.Node) bool {
+		switch x := n.(type) {
+		case *ast.AssignStmt:
+			for _, l := range x.Lhs {
+				if id, ok := l.(*ast.Ident); ok {
+					defs[id.Name]++
+				}
+			}
+		case *ast.IncDecStmt:
+			if id, ok := x.X.(*ast.Ident); ok {
+				defs[id.Name] += 2
+			}
+		}
+		return true
+	})
+	ast.Inspect(body, func(n ast.Node) bool {
+		if x, ok := n.(*ast.AssignStmt); ok && x.Tok == token.DEFINE && len(x.Lhs) == 1 && len(x.Rhs) == 1 {
+			if id, ok := x.Lhs[0].(*ast.Ident); ok && defs[id.Name] == 1 {
+				if v, ok := constStr(x.Rhs[0]); ok {
+					localConst[id.Name] = v
+				}
+				if exprText(x.Rhs[0]) == "s.Conn" {
+					connAlias[id.Name] = true
+				}
+			}
+		}
+		return true
+	})
+}
+
 // constant string value of an expression, if it has one
 func constStr(e ast.Expr) (string, bool) {
 	switch x := e.(type) {
+	case *ast.Ident:
+		v, ok := localConst[x.Name]
+		return v, ok
 	case *ast.BasicLit:
 		if x.Kind == token.STRING {
 			v, err := strconv.Unquote(x.Value)
@@ -100,6 +144,9 @@ type world struct {
 
 func (w *world) isInteractionCall(c *ast.CallExpr) (string, bool, bool) { // token name, interaction?, abort?
 	name := exprText(c.Fun)
+	if i := strings.Index(name, "."); i > 0 && connAlias[name[:i]] {
+		name = "s.Conn." + name[i+1:]
+	}
 	switch {
 	case strings.HasPrefix(name, "s.Conn."):
 		return strings.TrimPrefix(name, "s.Conn."), true, false
@@ -287,6 +334,66 @@ func (w *world) simple(n ast.Node, p path) path {
 	return q
 }
 
+// cond: the paths on which the condition is true / false.  `a || b`, `a && b`, `!a` whose RIGHT
+// operand contains an interaction are evaluated with Go's short circuit (the interaction happens
+// only on the paths that reach it); every other condition is one evaluation.
+func (w *world) cond(c ast.Expr, q path) (ts, es []path) {
+	switch x := c.(type) {
+	case *ast.ParenExpr:
+		return w.cond(x.X, q)
+	case *ast.UnaryExpr:
+		if x.Op == token.NOT {
+			if toks, _ := w.exprToks(x.X); len(toks) > 0 {
+				es, ts = w.cond(x.X, q)
+				return
+			}
+		}
+	case *ast.BinaryExpr:
+		if x.Op == token.LOR || x.Op == token.LAND {
+			if toks, _ := w.exprToks(x.Y); len(toks) > 0 {
+				ta, ea := w.cond(x.X, q)
+				if x.Op == token.LOR {
+					ts = append(ts, ta...)
+					for _, e := range ea {
+						if e.status != stOpen {
+							continue
+						}
+						tb, eb := w.cond(x.Y, e)
+						ts = append(ts, tb...)
+						es = append(es, eb...)
+					}
+				} else {
+					es = append(es, ea...)
+					for _, t := range ta {
+						if t.status != stOpen {
+							ts = append(ts, t)
+							continue
+						}
+						tb, eb := w.cond(x.Y, t)
+						ts = append(ts, tb...)
+						es = append(es, eb...)
+					}
+				}
+				return
+			}
+		}
+	}
+	q = w.simple(c, q)
+	if q.status != stOpen {
+		return []path{q}, nil
+	}
+	t, e := q, q
+	if n, ok, neg := mentionsWatched(c); ok {
+		tv, ev := "T", "F"
+		if neg {
+			tv, ev = "F", "T"
+		}
+		t = q.ext("?" + n + "=" + tv)
+		e = q.ext("?" + n + "=" + ev)
+	}
+	return []path{t}, []path{e}
+}
+
 func (w *world) stmt(s ast.Stmt, p path) []path {
 	switch s := s.(type) {
 	case *ast.ExprStmt:
@@ -361,28 +468,26 @@ func (w *world) stmt(s ast.Stmt, p path) []path {
 				out = append(out, q)
 				continue
 			}
-			q = w.simple(s.Cond, q)
-			if q.status != stOpen {
-				out = append(out, q)
-				continue
-			}
-			t, e := q, q
-			if n, ok, neg := mentionsWatched(s.Cond); ok {
-				tv, ev := "T", "F"
-				if neg {
-					tv, ev = "F", "T"
+			ts, es := w.cond(s.Cond, q)
+			for _, t := range ts {
+				if t.status != stOpen {
+					out = append(out, t)
+					continue
 				}
-				t = q.ext("?" + n + "=" + tv)
-				e = q.ext("?" + n + "=" + ev)
+				out = append(out, w.block(s.Body.List, []path{t})...)
 			}
-			out = append(out, w.block(s.Body.List, []path{t})...)
-			switch el := s.Else.(type) {
-			case nil:
-				out = append(out, e)
-			case *ast.BlockStmt:
-				out = append(out, w.block(el.List, []path{e})...)
-			case *ast.IfStmt:
-				out = append(out, w.stmt(el, e)...)
+			for _, e := range es {
+				if e.status != stOpen {
+					continue // the aborted evaluation is already among ts
+				}
+				switch el := s.Else.(type) {
+				case nil:
+					out = append(out, e)
+				case *ast.BlockStmt:
+					out = append(out, w.block(el.List, []path{e})...)
+				case *ast.IfStmt:
+					out = append(out, w.stmt(el, e)...)
+				}
 			}
 		}
 		return out
@@ -519,32 +624,42 @@ func main() {
 	repo := flag.String("repo", "/repo", "repository root")
 	out := flag.String("out", "", "Lean file to write")
 	flag.Parse()
-	file := filepath.Join(*repo, "go", "pkg", "ios", "device.go")
-	f, err := parser.ParseFile(fset, file, nil, 0)
-	if err != nil {
-		fmt.Fprintln(os.Stderr, err)
-		os.Exit(1)
-	}
-	w := &world{decls: map[string]*ast.FuncDecl{}, extra: map[string][]string{}}
-	for _, d := range f.Decls {
-		if fd, ok := d.(*ast.FuncDecl); ok {
-			w.decls[fd.Name.Name] = fd
-		}
-	}
-	w.closure = map[string]bool{}
-	w.computeImpure()
 	found := map[string][]string{}
-	for name, fd := range w.decls {
-		if fd.Body == nil {
-			continue
+	// go/pkg/ios/device.go: the apply path; go/pkg/cisco/device.go: the login / enable dialogue
+	for _, pkg := range []string{"cisco", "ios"} {
+		file := filepath.Join(*repo, "go", "pkg", pkg, "device.go")
+		f, err := parser.ParseFile(fset, file, nil, 0)
+		if err != nil {
+			fmt.Fprintln(os.Stderr, err)
+			os.Exit(1)
 		}
-		w.cur = name
+		w := &world{decls: map[string]*ast.FuncDecl{}, extra: map[string][]string{}}
+		for _, d := range f.Decls {
+			if fd, ok := d.(*ast.FuncDecl); ok {
+				w.decls[fd.Name.Name] = fd
+			}
+		}
 		w.closure = map[string]bool{}
-		ps := endScope(w.block(fd.Body.List, []path{{}}), 0)
-		found[name] = renderAll(ps)
-	}
-	for k, v := range w.extra {
-		found[k] = v
+		// aliases of the connection must be known while impurity is computed
+		for name, fd := range w.decls {
+			if fd.Body != nil && name == "LoginEnable" {
+				collectLocals(fd.Body)
+			}
+		}
+		w.computeImpure()
+		for name, fd := range w.decls {
+			if fd.Body == nil {
+				continue
+			}
+			collectLocals(fd.Body)
+			w.cur = name
+			w.closure = map[string]bool{}
+			ps := endScope(w.block(fd.Body.List, []path{{}}), 0)
+			found[name] = renderAll(ps)
+		}
+		for k, v := range w.extra {
+			found[k] = v
+		}
 	}
 	var b strings.Builder
 	b.WriteString("import NA.Model.IosSkelTypes\n")
